@@ -258,6 +258,10 @@ macro_rules! impl_div_rounded_decimal_and_int {
             type Output = Self;
 
             fn div_rounded(self, rhs: $t, n_frac_digits: u8) -> Self::Output {
+                #[allow(clippy::manual_assert)]
+                if n_frac_digits > MAX_N_FRAC_DIGITS {
+                    panic!("{}", DecimalError::MaxNFracDigitsExceeded);
+                }
                 if rhs == 0 {
                     panic!("{}", DecimalError::DivisionByZero);
                 }
@@ -321,6 +325,10 @@ macro_rules! impl_div_rounded_decimal_and_int {
             type Output = Decimal;
 
             fn div_rounded(self, rhs: Decimal, n_frac_digits: u8) -> Self::Output {
+                #[allow(clippy::manual_assert)]
+                if n_frac_digits > MAX_N_FRAC_DIGITS {
+                    panic!("{}", DecimalError::MaxNFracDigitsExceeded);
+                }
                 if rhs.eq_zero() {
                     panic!("{}", DecimalError::DivisionByZero);
                 }
